@@ -1284,8 +1284,44 @@ class Engine:
         return [(st, "continue", None)]
 
     def ex_FunctionDef(self, n, st, fr, k):
-        st.env[n.name] = SFunc("closure", (n, None))
+        f = SFunc("closure", (n, None))
+        f.def_heap = dict(st.heap.comps)       # the closure's contract is verified in this state
+        st.env[n.name] = f
+        cc = getattr(getattr(fr, "contract", None), "closures", {}).get(n.name)
+        if cc is not None and not self.dry:
+            self.verify_closure(n, f, cc, st, fr)
         return k(st)
+
+    def verify_closure(self, n, f, cc, st, fr):
+        """A nested function with a contract (used where the closure is handed to a builtin such as sorted()): verified here,
+        at its definition, for a symbolic argument in the defining state -- every return satisfies the ensures, nothing
+        escapes."""
+        s0 = st.copy()
+        args = []
+        for p, kind in cc["sorts"].items():
+            if p == "result":
+                continue
+            c = fresh("cl_" + p, kind_sort(kind))
+            v = from_sort(kind, c)
+            if isinstance(v, SRef):
+                s0.assume(z3.And(c > 0, c < s0.alloc))
+                if kind.startswith("ref:"):
+                    s0.assume(self.isinstance_term(s0, c, kind[4:]))
+            args.append((p, v))
+        for text in cc.get("requires", {}).values():
+            s1 = s0.copy()
+            s1.frames = s1.frames + [dict(args, __parent__=len(s1.frames) - 1)]
+            s0.assume(self.spec_bool(text, s1, fr, "assume"))
+        outs = self.call(f, [v for _, v in args], {}, s0, fr, lambda s2, r: [(s2, "clret", r)])
+        for (s2, kind, payload) in outs:
+            if kind == "clret":
+                s3 = s2.copy()
+                s3.frames = s3.frames + [dict(args, result=payload, __parent__=len(s3.frames) - 1)]
+                for cname, text in cc.get("ensures", {}).items():
+                    self.oblige_spec(s3, fr, "closure", f"{n.name}.{cname}", text, props=tuple(cc.get("props", ())))
+            elif kind == "raise":
+                self.oblige(s2, "closure", f"{n.name}.no-{payload.cls}", z3.BoolVal(False), f"{payload.cls} escapes the closure {n.name}",
+                            props=tuple(cc.get("props", ())))
 
     def ex_Import(self, n, st, fr, k):
         return k(st)
